@@ -68,6 +68,22 @@ def codec(
 
 
 @compat.cache
+def carried_verbatim(t: t.Any) -> bool:
+    """Whether `t` is a bytes-like type: such values are already encoded.
+
+    The type may be named through an alias, a `NewType`, a qualifier or a reference.
+    """
+    if isinstance(t, str):
+        t = refs.forwardref(t)
+    t = inspection.unwrap(t)
+    if isinstance(t, refs.ForwardRef):
+        try:
+            t = inspection.unwrap(refs.evaluate(t))
+        except Exception:  # noqa: BLE001 - unresolvable: the routines will say so.
+            return False
+    return inspection.isbytestype(t)
+
+
 def _codec(
     t: type[T],
     *,
@@ -80,7 +96,7 @@ def _codec(
     marshal = marshaller or marshals.marshaller(t=t)
     unmarshal = unmarshaller or unmarshals.unmarshaller(t=t)
     cls = codec_cls or Codec
-    if inspection.isbytestype(t):
+    if carried_verbatim(t):
         cdc = cls(
             marshal=marshal,
             unmarshal=unmarshal,
